@@ -391,11 +391,15 @@ impl PublishBuilder {
         log::trace!("Publish (QoS1) to {:#?}", self.packet);
 
         if tx.is_canceled() {
+            // send slot is not used, notify next queued sender
+            self.shared.wake_waiter();
             Err(SendPacketError::StreamingCancelled)
         } else {
             let rx =
                 self.shared.wait_publish_response(idx, AckType::Publish, self.packet, None);
-            let _ = tx.send(());
+            if rx.is_ok() {
+                let _ = tx.send(());
+            }
 
             rx?.await.map(|_| ()).map_err(|_| SendPacketError::Disconnected)
         }
@@ -505,7 +509,10 @@ impl SubscribeBuilder {
                     // wait ack from peer
                     rx.await.map_err(|_| SendPacketError::Disconnected).map(Ack::subscribe)
                 }
-                Err(err) => Err(SendPacketError::Encode(err)),
+                Err(err) => {
+                    self.shared.cancel_response(idx);
+                    Err(SendPacketError::Encode(err))
+                }
             }
         }
     }
@@ -585,7 +592,10 @@ impl UnsubscribeBuilder {
                     // wait ack from peer
                     rx.await.map_err(|_| SendPacketError::Disconnected).map(|_| ())
                 }
-                Err(err) => Err(SendPacketError::Encode(err)),
+                Err(err) => {
+                    shared.cancel_response(idx);
+                    Err(SendPacketError::Encode(err))
+                }
             }
         }
     }
